@@ -291,7 +291,7 @@ fn eval_all(reqs: &[Value]) -> Vec<Value> {
 
 pub fn main(args: &[String]) -> i32 {
     if args.len() < 3 {
-        eprintln!("vectors <glob|norm|parse> <in.ndjson> <out.ndjson>");
+        eprintln!("vectors <glob|norm|parse|ser> <in.ndjson> <out.ndjson>");
         return 2;
     }
     let kind = args[0].as_str();
@@ -337,9 +337,26 @@ pub fn main(args: &[String]) -> i32 {
                 expect.push(v["exp"].clone());
             }
         }
+        // relay round trip: the line as received, re-serialised with a source, must re-parse (by the
+        // harness's own tokenizer) to the same command and parameters
+        "ser" => {
+            for v in &lines {
+                reqs.push(json!({"k": "ser", "line": v["line"], "src": v["src"]}));
+                expect.push(v["exp"].clone());
+            }
+        }
         _ => return 2,
     }
-    let res = eval_all(&reqs);
+    let mut res = eval_all(&reqs);
+    if kind == "ser" {
+        for r in res.iter_mut() {
+            if let Some(line) = r.get("r").and_then(|x| x.as_str()).map(|x| x.to_string()) {
+                if let Some(t) = crate::wire::tokenize(&line) {
+                    *r = json!({"r": line, "prefix": t.prefix.unwrap_or_default(), "command": t.command, "params": t.params});
+                }
+            }
+        }
+    }
     let mut w = BufWriter::new(std::fs::File::create(&args[2]).expect("create out"));
     let mut bad = 0;
     for ((rq, ex), got) in reqs.iter().zip(expect.iter()).zip(res.iter()) {
